@@ -918,6 +918,182 @@ pub fn check_c20(case: &TailCase, w: usize) -> CheckResult {
         .inv(env.invocations))
 }
 
+/// Two runs, one listener: two repositories share the listener's address (their lock addresses
+/// differ), their runs are started together, the first executes command c0 and the second c1, so
+/// that every (stream, target, command) belongs to exactly one of them. Whatever order the
+/// listener serves the two connections in, what it prints must be header-introduced blocks whose
+/// lines all come from the task named in the header, and per key the blocks reassemble to that
+/// task's stored log.
+pub fn check_c20_two_runs(case: &TailCase, w: usize) -> CheckResult {
+    let mut e1 = Env::new(w);
+    let mut e2 = Env::new(w);
+    e2.log_port = e1.log_port;
+    for e in [&mut e1, &mut e2] {
+        e.extra_env.push(("TOKIO_WORKER_THREADS".into(), case.tokio_workers.to_string()));
+    }
+    let mut plan = case.plan.clone();
+    plan.ncmd = 2;
+    plan.fail = None;
+    plan.unterminated = 0;
+    plan.quiet_ms = 0;
+    let setup1 = install(&e1, &plan, true);
+    let _setup2 = install(&e2, &plan, true);
+    let mut filters = case.filters.clone();
+    filters.commands.clear();
+    let f = resolve_filters(&filters, &setup1.cfg);
+    let a = f.args();
+    let argv: Vec<&str> = a.iter().map(|s| s.as_str()).collect();
+    let mut tail = e1.mr_spawn(&argv, &[]);
+    let port = e1.log_port;
+    if !bb::wait_listening(port, Duration::from_secs(20)) {
+        tail.kill_group();
+        return inconclusive("log tail did not start listening".into());
+    }
+    let r1 = e1.mr_spawn(&["run", "-c", "c0"], &[]);
+    let r2 = e2.mr_spawn(&["run", "-c", "c1"], &[]);
+    let o1 = r1.wait(Duration::from_secs(300));
+    let o2 = r2.wait(Duration::from_secs(300));
+    let (Some(d1), Some(d2)) = (o1.json(), o2.json()) else {
+        tail.kill_group();
+        return inconclusive(format!("a run produced no JSON: {} / {}", o1.brief(), o2.brief()));
+    };
+    let run1 = bb::parse_run(&d1).map_err(|e| Violation::new("c20.output", e))?;
+    let run2 = bb::parse_run(&d2).map_err(|e| Violation::new("c20.output", e))?;
+    let marker = "~~sentinel-marker~~";
+    let sent = (|| -> std::io::Result<()> {
+        let mut s = std::net::TcpStream::connect(("127.0.0.1", port))?;
+        s.set_read_timeout(Some(Duration::from_secs(20)))?;
+        let mut one = [0u8; 1];
+        loop {
+            let n = s.read(&mut one)?;
+            if n == 0 || one[0] == b'\n' {
+                break;
+            }
+        }
+        s.write_all(format!("{}\n", marker).as_bytes())?;
+        Ok(())
+    })();
+    if let Err(e) = &sent {
+        tail.kill_group();
+        return inconclusive(format!("sentinel client failed: {}", e));
+    }
+    let t0 = Instant::now();
+    loop {
+        let so = tail.stdout_so_far();
+        if String::from_utf8_lossy(&so).contains(marker) {
+            break;
+        }
+        if t0.elapsed() > Duration::from_secs(60) {
+            tail.kill_group();
+            return inconclusive("sentinel marker never appeared in the listener's output".into());
+        }
+        std::thread::sleep(Duration::from_millis(2));
+    }
+    tail.kill_group();
+    let tout = tail.wait(Duration::from_secs(10));
+    let text = tout.stdout;
+    let cut = String::from_utf8_lossy(&text).find(marker).unwrap_or(text.len());
+    let data = &text[..cut];
+    let nl = data.iter().position(|&b| b == b'\n').map(|i| i + 1).unwrap_or(0);
+    let first = &data[..nl];
+    let Some(stream_header) = bb::parse_header(first) else {
+        return viol_obs(
+            "c20.stream.header",
+            "the listener's output does not start with the stream header".into(),
+            json!({"first_line": String::from_utf8_lossy(first)}),
+        );
+    };
+    let (pre, blocks) = bb::parse_blocks(&data[nl..]);
+    if !pre.is_empty() {
+        return viol_obs("c20.headerless", "output after the stream header contains lines that are not introduced by a block header".into(), json!({"lines": String::from_utf8_lossy(&pre)}));
+    }
+    let mut concat: BTreeMap<(String, String, String), Vec<u8>> = BTreeMap::new();
+    let mut stream_headers = 1;
+    for b in &blocks {
+        let key = (b.stream.clone(), b.target.clone(), b.command.clone());
+        // (a stream header lists the filter's targets and commands in an order of the client's own choosing)
+        let norm = |k: &(String, String, String)| -> Vec<Vec<String>> {
+            [&k.0, &k.1, &k.2]
+                .iter()
+                .map(|s| {
+                    let mut v: Vec<String> = s.split(", ").map(String::from).collect();
+                    v.sort();
+                    v
+                })
+                .collect()
+        };
+        if norm(&key) == norm(&stream_header) {
+            // the second client's (and the sentinel's) stream header; it introduces nothing of its own
+            stream_headers += 1;
+            if !b.bytes.is_empty() {
+                return viol_obs("c20.two-runs.lines-under-stream-header", "task output follows a stream header without a block header of its own".into(), json!({"lines": String::from_utf8_lossy(&b.bytes)}));
+            }
+            continue;
+        }
+        if !f.admits(&b.stream, &b.target, &b.command) {
+            return viol_obs("c20.filter", format!("a block for {:?} was printed although the filters {:?} do not admit it", key, f), json!({"stream_header": format!("{:?}", stream_header), "first": String::from_utf8_lossy(first)}));
+        }
+        for line in String::from_utf8_lossy(&b.bytes).split_inclusive('\n') {
+            let Some(line) = line.strip_suffix('\n') else { continue };
+            let parts: Vec<&str> = line.split('¦').collect();
+            if parts.len() != 4 || parts[0] != b.target || parts[1] != b.command || parts[2] != b.stream {
+                return viol_obs(
+                    "c20.interleaved",
+                    format!("two runs on one listener: a line of another task appears inside the block of {:?}", key),
+                    json!({"line": line}),
+                );
+            }
+        }
+        concat.entry(key).or_default().extend_from_slice(&b.bytes);
+    }
+    let mut admitted_nonempty = 0;
+    for run in [&run1, &run2] {
+        let run_path = std::path::PathBuf::from(&run.run_path);
+        for (cmd, groups) in &run.results {
+            for g in groups {
+                for t in g.keys() {
+                    for stream in ["stdout", "stderr"] {
+                        let key = (stream.to_string(), t.clone(), cmd.clone());
+                        let file = run_path.join(cmd).join(bb::sha256_hex(t.as_bytes())).join(format!("{}.zst", stream));
+                        let stored = if file.exists() { bb::stored_log(&run_path, cmd, t, stream).map_err(|e| Violation::new("c20.decode", e))? } else { vec![] };
+                        if f.admits(stream, t, cmd) {
+                            let got = concat.get(&key).cloned().unwrap_or_default();
+                            if got != stored {
+                                return viol_obs(
+                                    "c20.reassembly",
+                                    format!("two runs on one listener: the blocks for {:?} do not reassemble to the stored log", key),
+                                    json!({"tailed_len": got.len(), "stored_len": stored.len()}),
+                                );
+                            }
+                            if !stored.is_empty() {
+                                admitted_nonempty += 1;
+                            }
+                        } else if concat.contains_key(&key) {
+                            return viol("c20.filter", format!("blocks for excluded {:?}", key));
+                        }
+                    }
+                }
+            }
+        }
+    }
+    Ok(CaseInfo::new(admitted_nonempty >= 4)
+        .class("two-runs-one-listener")
+        .class_if(stream_headers >= 2, "second-stream-header-seen")
+        .class_if(!f.targets.is_empty(), "target-filter")
+        .class(&format!("tokio-workers={}", case.tokio_workers))
+        .inv(e1.invocations + e2.invocations))
+}
+
+/// Plans for `check_c20_two_runs`: chatty (60-250 ms between lines), so that the two runs overlap
+/// for a second or more, without connection holds.
+pub fn strategy_c20_two() -> impl Strategy<Value = TailCase> {
+    (plan(4, true), filters(0), proptest::sample::select(vec![1usize, 2, 4])).prop_map(|(mut plan, filters, tw)| {
+        plan.layers.truncate(2);
+        plan.long_lines = 0;
+        TailCase { plan, filters, tokio_workers: tw, lock_delay_ms: 0 }
+    })
+}
+
 pub fn run_c15(ctx: &mut Ctx) {
     ctx.hang_limit = Duration::from_secs(400);
     ctx.shrink_budget = Duration::from_secs(40);
@@ -949,6 +1125,8 @@ admitted non-empty log. non-trivial = a group of >= 4 tasks and a filter that ex
     let n = ctx.n(60, 1200);
     let max_layer = if ctx.thorough() { 24 } else { 8 };
     ctx.drive("tail", || strategy_c20(max_layer), n, check_c20);
+    let n2 = ctx.n(12, 200);
+    ctx.drive("two-runs-one-listener", strategy_c20_two, n2, check_c20_two_runs);
     ctx.drive_all(
         "quiet-period",
         quiet_cases(ctx.thorough()),
@@ -971,7 +1149,7 @@ pub fn replay_c15(ctx: &Ctx, label: &str, case: Value) -> Result<(), String> {
 }
 pub fn replay_c20(ctx: &Ctx, label: &str, case: Value) -> Result<(), String> {
     let c: TailCase = serde_json::from_value(case).map_err(|e| e.to_string())?;
-    let r = check_c20(&c, 0);
+    let r = if label.contains("two-runs") { check_c20_two_runs(&c, 0) } else { check_c20(&c, 0) };
     ctx.replay_one(label, &c, r);
     Ok(())
 }
